@@ -812,6 +812,12 @@ class Interp:
                     continue
             self.exec_block(s.orelse, fr)
             return
+        if is_sym(it) and it.sort() == StrS:
+            # iterating a symbolic string: the sequence of its characters (one-character strings), as many as its length
+            chars = UF('str.chars', StrS, z3.SeqSort(StrS))(it)
+            if not self.ctx.pure:
+                self.ctx.assume(z3.Length(chars) == z3.Length(it))
+            it = SymSeq([chars])
         ordinal = fr.loop_ordinals[id(s)]
         lspec = self.spec.loops.get((fr.fi.qualname, ordinal))
         if lspec is None:
